@@ -1,7 +1,7 @@
 (* CloseThm.v -- the statements Props/C14.v and Props/C06.v export *)
 From Coq Require Import List Arith Bool Lia.
 From RW Require Import Conc.Sys Conc.SysFacts Conc.Close Conc.ListX Conc.CloseInv Conc.CloseFacts
-     Conc.CloseK Conc.CloseStep1 Conc.CloseLive Conc.CloseSafe Conc.CloseSafeStep.
+     Conc.CloseK Conc.CloseStep1 Conc.CloseLive Conc.CloseSafe Conc.CloseSafeStep Conc.CloseReach.
 Import ListNotations.
 
 Definition reach (progs extra : list (list op)) (s : sys) : Prop :=
@@ -39,12 +39,43 @@ Qed.
 (* in a state that satisfies part 1 of the invariant no thread can take a step that
    panics (nil state, closed/nil channel, offsets index) *)
 Theorem no_panic_step : forall w r s t s',
-  Inv1 w r s -> step s t = Some s' ->
+  Safe s -> Inv1 w r s -> step s t = Some s' ->
   forall th', nth_error (ths s') t = Some th' -> t_pc th' <> PPanic.
 Proof.
-  intros w r s t s' I H th' E'. destruct (step_decomp _ _ _ H) as (th & g' & th'' & E & F & ->).
+  intros w r s t s' SA I H th' E'. destruct (step_decomp _ _ _ H) as (th & g' & th'' & E & F & ->).
   cbn in E'. rewrite nth_error_upd_eq in E' by (eapply nth_error_Some_lt; eauto).
   inversion E'; subst. eapply no_panic; eauto.
+Qed.
+
+(* ---- reachable states of a single-writer system ----------------------------------------- *)
+(* no thread ever panics: nil state dereference, close of a closed or nil channel, send on
+   a closed channel, offsets index out of range are all unreachable *)
+Theorem no_panic_reach : forall w progs extra s,
+  single_writer w progs extra -> reach progs extra s -> crashed s = false.
+Proof.
+  intros w progs extra s SW R. destruct (full_reach w progs extra s SW R) as [_ I].
+  unfold crashed. destruct (existsb is_panic (ths s)) eqn:X; [|reflexivity]. exfalso.
+  apply existsb_exists in X. destruct X as (th & Hi & P). apply In_nth_error in Hi. destruct Hi as (t & E).
+  pose proof (i_thr _ _ _ I _ _ E) as TF. unfold th_facts1 in TF. unfold is_panic in P.
+  destruct (t_pc th); try discriminate. exact TF.
+Qed.
+
+Theorem no_deadlock_reach : forall w progs extra s,
+  single_writer w progs extra -> reach progs extra s ->
+  (exists t th, nth_error (ths s) t = Some th /\ t_rot th = false /\ th_done th = false) ->
+  exists t, enabled step s t = true.
+Proof.
+  intros w progs extra s SW R. destruct (full_reach w progs extra s SW R) as [_ I].
+  apply (no_deadlock_state w (length progs) s I).
+Qed.
+
+Theorem rotator_exits_reach : forall w progs extra s,
+  single_writer w progs extra -> reach progs extra s -> g_closed (sh s) = true ->
+  (exists thr, nth_error (ths s) (length progs) = Some thr /\ t_pc thr = PRDone) \/
+  exists t, enabled step s t = true.
+Proof.
+  intros w progs extra s SW R. destruct (full_reach w progs extra s SW R) as [_ I].
+  apply (rotator_exits_state w (length progs) s I).
 Qed.
 
 (* ---- C06 ------------------------------------------------------------------------------ *)
